@@ -29,7 +29,7 @@ from witnesses import WITNESSES, corpus_for
 
 PID = "C03"
 COQ_TARGETS = cp.COQ_TARGETS
-KNOWN = ["D19", "D1", "D3", "D4", "D9"]
+KNOWN = ["D19", "D1", "D3", "D4", "D9", "D24"]
 FRESH = [90, 91]          # option names that no generated expression or dictionary mentions
 
 
